@@ -138,6 +138,37 @@ pub fn c14(ctx: &Ctx, begin: &mut dyn FnMut(J)) -> Outcome {
     if let Zoom::Auto { max, .. } = &mut opts.zoom {
         *max = (*max).min(3);
     }
+    // bulk class (2 cases in 16): one chromosome with 12 000 items, so that data and the first two zoom levels are
+    // each larger than any 8 KiB buffer between the writer and the sink (copies of staged sections then reach the
+    // sink as direct writes, not only at the final flush)
+    let bulk = matches!(ctx.case % 16, 6 | 15);
+    let (inp, hash) = if bulk {
+        const N: u32 = 12_000;
+        match inp {
+            Input::Bw(mut i) => {
+                i.truncate(1);
+                i[0].0.size = i[0].0.size.max(N * 4 + 100);
+                i[0].1 = (0..N).map(|k| Value { start: k * 4, end: k * 4 + 3, value: [1.0f32, 2.0, 0.5, 4.0][(k % 4) as usize] }).collect();
+                (Input::Bw(i), format!("{}:bulk", hash))
+            }
+            Input::Bb(mut i) => {
+                i.truncate(1);
+                i[0].0.size = i[0].0.size.max(N * 4 + 100);
+                i[0].1 = (0..N).map(|k| BedEntry { start: k * 4, end: k * 4 + 6, rest: "x".to_string() }).collect();
+                (Input::Bb(i), format!("{}:bulk", hash))
+            }
+        }
+    } else {
+        (inp, hash)
+    };
+    if bulk {
+        opts.zoom = Zoom::Manual(vec![40, 160, 640]);
+        opts.items_per_slot = *r.pick(&[64u32, 256, 1024]);
+        opts.block_size = opts.block_size.max(4);
+        opts.multipass = r.chance(2, 3);
+        opts.workers = 0; // one schedule is enough here; the small cases cover the multi-thread one
+        out.tag("bulk_input");
+    }
     begin(
         J::obj().set("kind", if is_bw { "bigwig" } else { "bigbed" }.into()).set("opts", opts.to_json()).set(
             "input",
